@@ -33,7 +33,7 @@ def main():
     demo = "--demo" in sys.argv
     seed_dir = pathlib.Path(args[0]).resolve()
     meta = json.loads((seed_dir / "meta.json").read_text()) if (seed_dir / "meta.json").exists() else {}
-    props = args[1:] or [meta.get("property")]
+    props = args[1:] or [meta.get("property") or seed_dir.name.split("-")[0].lstrip("R") or seed_dir.name[:3]]
     wt = pathlib.Path(tempfile.mkdtemp(prefix="mut_", dir="/tmp"))
     wt.rmdir()
     r = sh(["git", "-C", "/repo", "worktree", "add", "--detach", str(wt), "HEAD"])
